@@ -1,6 +1,7 @@
 (* Correspondence runner for C15 (fill_before, create_and_fill, find_wrapping) *)
 From Coq Require Import ZArith List Bool Arith.
 From PM Require Export Model.Data Model.Mark Model.Tree Model.Step Model.Fill Corr.Common Corr.Tree.
+From PM Require Import Proofs.FillComplete Proofs.WrapComplete.
 Import ListNotations.
 
 Inductive case :=
@@ -73,9 +74,13 @@ Fixpoint chain_ok (s : schema) (q : nat) (chain : list nat) (target : nat) (init
     end
   end.
 
+(* the hypotheses of the completeness theorems (Properties/C15.v), evaluated on the dumped schema *)
+Definition table_closed (s : schema) : bool := closed_schema s && closed_types s.
+
 Definition holds (c : case) : bool :=
   match c with
   | CFill s q after te st obs =>
+    table_closed s && Nat.ltb q (length (s_states s)) &&
     match obs with
     | Ok (Some fill) =>
       forallb (fun n => generatable s (node_ty s n)) fill &&
@@ -94,6 +99,7 @@ Definition holds (c : case) : bool :=
     | Err e => err_eqb e ErrValue     (* required attribute missing *)
     end
   | CWrap s q target obs =>
+    table_closed s &&
     let best := wrap_levels s (S (S (length (s_nodes s)))) target [q] 0 true in
     match obs with
     | Some chain => chain_ok s q chain target true && opt_eqb Nat.eqb best (Some (length chain))
